@@ -4,6 +4,7 @@ import (
 	"fmt"
 	"go/constant"
 	"go/token"
+	"regexp"
 	"sort"
 	"strings"
 
@@ -33,6 +34,7 @@ func checkC17(r *core.Run) {
 	c17MinValueFirst(r, p)
 	c17RemoveFound(r, p)
 	c17KeyComplete(r, p)
+	c17Recognisers(r, p, "R-C17-sym")
 }
 
 // c17RemoveFound: when an output leaves the set, the entry removed from the address's list is the one that
@@ -764,4 +766,75 @@ func c17UsePos(ld *ssa.UnOp) token.Pos {
 		}
 	}
 	return ld.Parent().Pos()
+}
+
+// c17Recognisers: the five script recognisers the index classifies outputs with accept exactly one frame
+// each: a fixed length and fixed bytes, every one of them tested for equality (a weakened test such as
+// "first byte >= OP_1" files other scripts - future witness versions - under the same key as real ones).
+func c17Recognisers(r *core.Run, p *core.Program, rule string) {
+	want := map[string]string{
+		"lib/script.IsP2KH":   "len=25 0=118 1=169 2=20 23=136 24=172",
+		"lib/script.IsP2SH":   "len=23 0=169 1=20 22=135",
+		"lib/script.IsP2WPKH": "len=22 0=0 1=20",
+		"lib/script.IsP2WSH":  "len=34 0=0 1=32",
+		"lib/script.IsP2TAP":  "len=34 0=81 1=32",
+	}
+	reLen := regexp.MustCompile(`^\(builtin\.len\(param#0\) (\S+) (\d+)\)$`)
+	reByte := regexp.MustCompile(`^\(param#0\[(\d+)\] (\S+) (\d+)\)$`)
+	for name, w := range want {
+		fn := p.Func(name)
+		key := "recogniser/" + name[strings.LastIndex(name, ".")+1:]
+		if fn == nil {
+			r.Fail(rule, key, "-", name+" not found")
+			continue
+		}
+		var got []string
+		bad := ""
+		var conds []string
+		for _, b := range fn.Blocks {
+			if iff, ok := b.Instrs[len(b.Instrs)-1].(*ssa.If); ok {
+				conds = append(conds, an.Expr(iff.Cond))
+			}
+		}
+		// the last test of an && chain is the returned value itself
+		an.Instrs(fn, func(i ssa.Instruction) {
+			if bo, ok := i.(*ssa.BinOp); ok {
+				e := an.Expr(bo)
+				dup := false
+				for _, c := range conds {
+					if c == e {
+						dup = true
+					}
+				}
+				if !dup {
+					conds = append(conds, e)
+				}
+			}
+		})
+		for _, c := range conds {
+			if m := reLen.FindStringSubmatch(c); m != nil {
+				if m[1] != "==" {
+					bad = "the length is tested with " + m[1]
+				}
+				got = append(got, "len="+m[2])
+			} else if m := reByte.FindStringSubmatch(c); m != nil {
+				if m[2] != "==" {
+					bad = "byte " + m[1] + " is tested with " + m[2] + " instead of =="
+				}
+				got = append(got, m[1]+"="+m[3])
+			}
+		}
+		sort.Slice(got, func(i, j int) bool {
+			ki, kj := strings.SplitN(got[i], "=", 2)[0], strings.SplitN(got[j], "=", 2)[0]
+			if ki == "len" || kj == "len" {
+				return ki == "len" && kj != "len"
+			}
+			var a, b int
+			fmt.Sscanf(ki, "%d", &a)
+			fmt.Sscanf(kj, "%d", &b)
+			return a < b
+		})
+		g := strings.Join(got, " ")
+		r.Check(bad == "" && g == w, rule, key, p.Pos(fn.Pos()), "accepts exactly the frame "+w, "the recogniser tests {"+g+"} "+bad+"; the frame is {"+w+"}")
+	}
 }
